@@ -1026,6 +1026,13 @@ func (e *sched) binop(st *sState, x *ssa.BinOp) sVal {
 					nb[i] = p
 				case p == q:
 					nb[i] = ""
+				case (p == "1" || q == "1") && i == 0 && singleBit(as) && singleBit(bs):
+					// bit ^ 1 on one-bit values: 1 - bit (a linear form; there is no bit symbol for a negated bit)
+					a := p
+					if a == "1" {
+						a = q
+					}
+					return symLin(map[string]*big.Rat{"": big.NewRat(1, 1), a: big.NewRat(-1, 1)})
 				default:
 					return sOpaque{"XOR of symbolic bits"}
 				}
@@ -1573,4 +1580,17 @@ func (e *sched) concretise(st *sState) {
 			st.vals[k] = sInt{new(big.Int).Set(sum.Num())}
 		}
 	}
+}
+
+// singleBit: only bit 0 of the vector can be set
+func singleBit(s *sSym) bool {
+	if s.bits == nil {
+		return false
+	}
+	for i, b := range s.bits {
+		if i > 0 && b != "" {
+			return false
+		}
+	}
+	return true
 }
